@@ -21,35 +21,35 @@ func phasesFor(prop string) []phaseDef {
 	switch prop {
 	case "C01":
 		return []phaseDef{
-			{"stream", "plain", 120000, 600000, func(r *Rng, i int) []*Scenario { return genStream(r, "C01", "stream", false, 0.30, 0.08) }},
-			{"stream-knob", "knob", 120000, 600000, func(r *Rng, i int) []*Scenario { return genStream(r, "C01", "stream-knob", true, 0.30, 0.08) }},
-			{"memory", "plain", 60000, 300000, func(r *Rng, i int) []*Scenario {
+			{"stream", "plain", 120000, 1500000, func(r *Rng, i int) []*Scenario { return genStream(r, "C01", "stream", false, 0.30, 0.08) }},
+			{"stream-knob", "knob", 120000, 1500000, func(r *Rng, i int) []*Scenario { return genStream(r, "C01", "stream-knob", true, 0.30, 0.08) }},
+			{"memory", "plain", 60000, 600000, func(r *Rng, i int) []*Scenario {
 				return []*Scenario{{Property: "C01", Phase: "memory", Doc: genDoc(r, docMax(r))}}
 			}},
-			{"large", "plain", 400, 8000, func(r *Rng, i int) []*Scenario { return genStreamLarge(r, "C01", "large", 0.2, 0.1) }},
-			{"trunc-enum", "plain", 400, 6000, func(r *Rng, i int) []*Scenario { return genEnumK(r, "C01", "trunc-enum", "early-eof") }},
+			{"large", "plain", 400, 16000, func(r *Rng, i int) []*Scenario { return genStreamLarge(r, "C01", "large", 0.2, 0.1) }},
+			{"trunc-enum", "plain", 400, 12000, func(r *Rng, i int) []*Scenario { return genEnumK(r, "C01", "trunc-enum", "early-eof") }},
 			{"part-enum", "plain", 1000, 20000, func(r *Rng, i int) []*Scenario { return genEnumPartitions(r, "C01", "part-enum") }},
 		}
 	case "C08":
 		return []phaseDef{
-			{"A", "plain", 100000, 600000, func(r *Rng, i int) []*Scenario { return genStream(r, "C08", "A", false, 0, 0) }},
-			{"A-knob", "knob", 100000, 600000, func(r *Rng, i int) []*Scenario { return genStream(r, "C08", "A-knob", true, 0, 0) }},
-			{"B", "plain", 100000, 600000, func(r *Rng, i int) []*Scenario { return genStream(r, "C08", "B", false, 0.25, 0.75) }},
-			{"B-knob", "knob", 100000, 600000, func(r *Rng, i int) []*Scenario { return genStream(r, "C08", "B-knob", true, 0.25, 0.75) }},
-			{"large", "plain", 500, 10000, func(r *Rng, i int) []*Scenario { return genStreamLarge(r, "C08", "large", 0.15, 0.35) }},
-			{"B-enum", "knob", 400, 8000, func(r *Rng, i int) []*Scenario { return genEnumK(r, "C08", "B-enum", "error") }},
+			{"A", "plain", 100000, 1200000, func(r *Rng, i int) []*Scenario { return genStream(r, "C08", "A", false, 0, 0) }},
+			{"A-knob", "knob", 100000, 1200000, func(r *Rng, i int) []*Scenario { return genStream(r, "C08", "A-knob", true, 0, 0) }},
+			{"B", "plain", 100000, 1200000, func(r *Rng, i int) []*Scenario { return genStream(r, "C08", "B", false, 0.25, 0.75) }},
+			{"B-knob", "knob", 100000, 1200000, func(r *Rng, i int) []*Scenario { return genStream(r, "C08", "B-knob", true, 0.25, 0.75) }},
+			{"large", "plain", 500, 16000, func(r *Rng, i int) []*Scenario { return genStreamLarge(r, "C08", "large", 0.15, 0.35) }},
+			{"B-enum", "knob", 400, 16000, func(r *Rng, i int) []*Scenario { return genEnumK(r, "C08", "B-enum", "error") }},
 			{"part-enum", "plain", 2500, 40000, func(r *Rng, i int) []*Scenario { return genEnumPartitions(r, "C08", "part-enum") }},
 		}
 	case "C04":
 		return []phaseDef{
-			{"healthy", "steps", 60000, 400000, func(r *Rng, i int) []*Scenario { return genTotality(r, "healthy") }},
-			{"faulty", "steps", 40000, 300000, func(r *Rng, i int) []*Scenario { return genTotality(r, "faulty") }},
-			{"limit", "steps", 20000, 100000, func(r *Rng, i int) []*Scenario { return genTotality(r, "limit") }},
-			{"cut-enum", "steps", 200, 3000, func(r *Rng, i int) []*Scenario { return genTotalityEnum(r) }},
+			{"healthy", "steps", 60000, 600000, func(r *Rng, i int) []*Scenario { return genTotality(r, "healthy") }},
+			{"faulty", "steps", 40000, 600000, func(r *Rng, i int) []*Scenario { return genTotality(r, "faulty") }},
+			{"limit", "steps", 20000, 200000, func(r *Rng, i int) []*Scenario { return genTotality(r, "limit") }},
+			{"cut-enum", "steps", 200, 6000, func(r *Rng, i int) []*Scenario { return genTotalityEnum(r) }},
 		}
 	case "C18":
 		return []phaseDef{
-			{"tapes", "plain", 400000, 4000000, func(r *Rng, i int) []*Scenario { return genWalk(r) }},
+			{"tapes", "plain", 400000, 8000000, func(r *Rng, i int) []*Scenario { return genWalk(r) }},
 			{"single-enum", "plain", 1500, 20000, func(r *Rng, i int) []*Scenario { return genWalkEnum(r) }},
 			{"wide", "plain", 480, 8000, func(r *Rng, i int) []*Scenario { return genWalkWide(r) }},
 		}
